@@ -262,3 +262,69 @@ func ZZH_C10_field_sensitive() {
 		zz.Assert("C10.field-write-changes-root", zz.Not(zz.EqBytes(rx, run(0, false))))
 	}
 }
+
+// ZZH_C10_net_changes: two block histories that realise the same net set of changes give the same
+// root. Key "a" of an account is committed (or not); the block's net effect on it is a delete, a
+// new value, or nothing. The plain history makes just that change; the other history reaches it
+// through detours that cancel out: an intermediate value overwritten by the final one, and after
+// the final change a write / delete of the same key inside a snapshot that is reverted (a failing
+// transaction later in the block). Both roots are equal, and the value read back at the end of the
+// block is the net one in both.
+// zz:also C07 C13
+func ZZH_C10_net_changes() {
+	store := zz.NewStore()
+	l := zzNewLedger(store, nil)
+	committed := zz.Choice("committed", 2) == 1
+	if committed {
+		l.SetState(zzAddrs[0], []byte("a"), []byte{zz.U8("v0")}, nil)
+	}
+	l.SetBalance(zzAddrs[0], big.NewInt(3))
+	zzCommit(l, 1)
+	net := zz.Choice("net", 3) // 0 delete, 1 new value, 2 untouched
+	w := []byte{zz.U8("w")}
+	detour := zz.Choice("detour", 4)
+	run := func(plain bool) ([]byte, bool, []byte) {
+		x := zzNewLedger(store.Clone(), nil)
+		apply := func() {
+			switch net {
+			case 0:
+				x.SetState(zzAddrs[0], []byte("a"), nil, nil)
+			case 1:
+				x.SetState(zzAddrs[0], []byte("a"), w, nil)
+			}
+		}
+		if plain {
+			apply()
+		} else {
+			switch detour {
+			case 0: // an intermediate value first
+				if net != 2 {
+					x.SetState(zzAddrs[0], []byte("a"), []byte{zz.U8("mid")}, nil)
+				}
+				apply()
+			case 1: // afterwards a reverted write
+				apply()
+				id := x.Snapshot()
+				x.SetState(zzAddrs[0], []byte("a"), []byte{zz.U8("tv")}, nil)
+				x.RevertToSnapshot(id)
+			case 2: // afterwards a reverted delete
+				apply()
+				id := x.Snapshot()
+				x.SetState(zzAddrs[0], []byte("a"), nil, nil)
+				x.RevertToSnapshot(id)
+			case 3: // a reverted write first, then the change
+				id := x.Snapshot()
+				x.SetState(zzAddrs[0], []byte("a"), []byte{zz.U8("tv")}, nil)
+				x.RevertToSnapshot(id)
+				apply()
+			}
+		}
+		ok, got := x.GetState(zzAddrs[0], []byte("a"))
+		_, r := x.FlushDirtyData()
+		return r.Bytes(), ok, got
+	}
+	r0, ok0, v0 := run(true)
+	r1, ok1, v1 := run(false)
+	zz.Assert("C10.net.same-net-changes-same-root", zz.EqBytes(r0, r1))
+	zz.Assert("C10.net.same-value-read-back", ok0 == ok1 && (!ok0 || zz.EqBytes(v0, v1)))
+}
